@@ -3,6 +3,6 @@
 s=/verif/seeded/$1; p=$2; t=${3:-quick}
 git -C /repo apply $s/patch.diff || exit 2
 ( cd /verif && ./check $p $t ) > /tmp/try_$$.out 2> /tmp/try_$$.err; rc=$?
-git -C /repo checkout -- .
+git -C /repo apply -R $s/patch.diff
 echo "seed=$1 prop=$p exit=$rc"; grep -E "^(VIOLATION|KNOWN)" /tmp/try_$$.out; grep -E "failed:|govc:" /tmp/try_$$.err | head -${4:-8}
 rm -f /tmp/try_$$.*
